@@ -426,7 +426,8 @@ Lemma inspect_loop_cons d raw rest i subs hyph counts :
       let counts' := n :: counts in
       match rest with
       | [] => (hyph', rev counts')
-      | _ => if Nat.leb 20 i then (hyph', rev counts') else inspect_loop d rest (S i) subs hyph' counts'
+      | _ => if Nat.ltb 20 (List.length counts') then (hyph', rev counts')
+             else inspect_loop d rest (S i) subs hyph' counts'
       end.
 Proof. cbn [inspect_loop]. destruct (strip raw); reflexivity. Qed.
 
@@ -462,7 +463,7 @@ Proof.
       set (h' := if in_str ch_minus (strip raw) then S hyph else hyph).
       destruct rest as [|raw2 rest2].
       * exists h', 1%nat. cbn [repeat]. split; [reflexivity|]. intros _. lia.
-      * destruct (Nat.leb 20 i).
+      * destruct (Nat.ltb 20 (List.length (c :: counts))).
         -- exists h', 1%nat. cbn [repeat]. split; [reflexivity|]. intros _. lia.
         -- destruct (IH (S i) h' (c :: counts) Hrest) as (h2 & k & E2 & _).
            exists h2, (S k). rewrite E2. cbn [rev repeat]. rewrite <- app_assoc. cbn [app].
